@@ -397,36 +397,49 @@ def child_main(wfd: int, rfd: int, scenario: dict, event, clock, inv_no: int, du
         from dw import contracts
 
         RT.post("contracts_attached", report=contracts.install(RT))
-    from dw.interp import build_handler
+    from dw.interp import build_handler, warm_handler
 
-    handler, boot = build_handler(scenario, RT, inv_no)
-    pert = None
-    if opts.get("perturb"):
-        spec = dict(opts["perturb"])
-        spec["seed"] = spec.get("seed", 0) * 1000 + inv_no
-        pert = Perturb(spec)
-        pert.install()
-    outcome: dict
-    try:
-        ev = event() if callable(event) else event
-        res = handler(ev, LambdaCtx())
-        outcome = {"kind": "return", "value": res}
-    except BaseException as e:  # noqa: BLE001
-        outcome = {
-            "kind": "raise",
-            "cls": type(e).__name__,
-            "mro": [c.__name__ for c in type(e).__mro__],
-            "msg": str(e)[:500],
-            "retriable": getattr(e, "is_retriable", lambda: None)() if hasattr(e, "is_retriable") else None,
-        }
-    if pert:
-        sys.monitoring.set_events(Perturb.TOOL, 0)
-    _time.sleep(0)  # let finished workers settle
-    alive = [t.name for t in threading.enumerate() if t.is_alive() and t.name.startswith("dex-handler")]
-    allthreads = [t.name for t in threading.enumerate() if t.is_alive() and t is not threading.current_thread()]
-    RT.rpc("inv_end", outcome=outcome, dex_alive=alive, threads=allthreads, perturb_hits=pert.hits if pert else 0,
-           contract_evals=dict(contracts.COUNTS) if contracts else None)
+    handler = None
+    while True:
+        if opts.get("warm"):
+            # one decorated handler object for the life of the sandbox (as a Lambda module-level handler), a fresh interpreter of
+            # the workflow program per invocation
+            handler, boot = warm_handler(scenario, RT, inv_no, handler)
+        else:
+            handler, boot = build_handler(scenario, RT, inv_no)
+        pert = None
+        if opts.get("perturb"):
+            spec = dict(opts["perturb"])
+            spec["seed"] = spec.get("seed", 0) * 1000 + inv_no
+            pert = Perturb(spec)
+            pert.install()
+        outcome: dict
+        try:
+            ev = event() if callable(event) else event
+            res = handler(ev, LambdaCtx())
+            outcome = {"kind": "return", "value": res}
+        except BaseException as e:  # noqa: BLE001
+            outcome = {
+                "kind": "raise",
+                "cls": type(e).__name__,
+                "mro": [c.__name__ for c in type(e).__mro__],
+                "msg": str(e)[:500],
+                "retriable": getattr(e, "is_retriable", lambda: None)() if hasattr(e, "is_retriable") else None,
+            }
+        if pert:
+            sys.monitoring.set_events(Perturb.TOOL, 0)
+        _time.sleep(0)  # let finished workers settle
+        alive = [t.name for t in threading.enumerate() if t.is_alive() and t.name.startswith("dex-handler")]
+        allthreads = [t.name for t in threading.enumerate() if t.is_alive() and t is not threading.current_thread()]
+        resp = RT.rpc("inv_end", outcome=outcome, dex_alive=alive, threads=allthreads, perturb_hits=pert.hits if pert else 0,
+                      contract_evals=dict(contracts.COUNTS) if contracts else None)
+        if isinstance(resp, dict) and "next" in resp:
+            nxt = resp["next"]
+            event, inv_no = nxt["event"], nxt["inv"]
+            clock.jump = nxt["jump"]
+            continue
+        break
     if opts.get("linger_s"):
-        # a warm sandbox: the process outlives the invocation for a moment, with whatever threads the invocation left behind
+        # the process outlives the invocation for a moment, with whatever threads the invocation left behind
         _time.sleep(float(opts["linger_s"]))
     os._exit(0)
